@@ -153,5 +153,29 @@ class PickleSpy:
 
     def install(self):
         import ombott.common_helpers as ch
-        ch.pickle = self
+        if hasattr(ch, 'pickle'):
+            ch.pickle = self
         return self
+
+    _global = None
+
+    @classmethod
+    def install_global(cls):
+        """Replace pickle.loads / pickle.load in the pickle module itself.  Called before ombott is imported, so
+        that `from pickle import loads` inside the code under test binds the spy as well."""
+        import pickle
+        if cls._global is None:
+            spy = cls._global = cls()
+            real_loads, real_load = pickle.loads, pickle.load
+
+            def loads(data, *a, **kw):
+                spy.loads_calls.append(bytes(data))
+                return real_loads(data, *a, **kw)
+
+            def load(f, *a, **kw):
+                data = f.read()
+                spy.loads_calls.append(bytes(data))
+                return real_loads(data, *a, **kw)
+            spy._real = type('RealPickle', (), {'loads': staticmethod(real_loads), 'dumps': staticmethod(pickle.dumps)})
+            pickle.loads, pickle.load = loads, load
+        return cls._global
